@@ -129,7 +129,8 @@ class C08:
             data = mg.int2magic(magic) + b"\0" * 60
             # a file's name never changes which Python version its magic number stands for
             base = None
-            for fname in ("m%d.pyc" % magic, "m.cpython-39.pyc", "m.pypy38.pyc", "m.pypy39.pyc", "m.pypy310.pyc", "m.pypy-73.pyc"):
+            for fname in ("m%d.pyc" % magic, "m.cpython-39.pyc", "m.pypy38.pyc", "m.pypy39.pyc", "m.pypy310.pyc", "m.pypy-73.pyc",
+                          "pypy38-compat/m.cpython-38.pyc", "site-packages/pypy39/m.pyc"):
                 try:
                     t_ = x.load.load_module_from_file_object(io.BytesIO(data), filename=fname, get_code=False)
                     o_ = x.disasm.get_opcode(t_[0], t_[4])
